@@ -153,6 +153,9 @@ func (ph PHash64) Encode(dst []byte) {
 }
 
 func (ph *PHash64) Decode(src []byte) {
+	if len(src) < 8 {
+		return
+	}
 	*ph = PHash64(decodeFn(src[:8]))
 }
 
